@@ -149,14 +149,19 @@ known("C13", r"^asm_forms\|[^|]*\|C13:no-internal-error\|[^|]*:escape:(IndexErro
 known("C06", r"^tape_roundtrip\|rt/[^|]*\|C06:roundtrip\|rt/lens=[\d,]*\b0\b[\d,]*:file-count=",
       "an empty file written to a cassette image hides itself and every later file from the listing (read_file returns None for "
       "a file without data)", {"files": "cassette: [file with 0 data bytes]"}, also=("C09", "C16"))
-known("C08", r"^disk_layout\|(write|multi)/[^|]*\|(C08:consistent|C08:stream|C08:files|C08:length-identity)\|",
+known("C08", r"^disk_layout\|(write|multi)/[^|]*\|(C08:consistent|C08:stream|C08:files|C08:length-identity)\|[^|]*straddle=yes",
       "the 5-byte machine-language trailer is written physically after the data even when it straddles the end of a granule: with a "
       "non-adjacent next granule (always from granule 33 to 34) trailer bytes land outside the chain, e.g. in the directory track",
       {"files": "disk: one ML file of 4599 bytes (default order) or 2295 bytes (reversed order)"}, also=("C07",))
-known("C07", r"^disk_layout\|(write|multi|foreign)/[^|]*\|C07:(roundtrip|foreign)(:\w+)?\|",
-      "the disk reader assumes physically contiguous files: chains in another order, trailers that follow the chain, chains near the "
-      "end of the image and empty files are not read back (VirtualFileValidationError or wrong data)",
+known("C07", r"^disk_layout\|(write|multi|foreign)/[^|]*\|C07:(roundtrip|foreign)(:\w+)?\|[^|]*adj=(no|unknown)",
+      "the disk reader assumes that a file's granules are physically contiguous: files whose chain has a non-adjacent step (other fill "
+      "orders, fragmentation, every chain crossing granule 33 -> 34, chains near the end of the image) are not read back",
       {"files": "disk: ML file of 5000 bytes with reversed fill order"}, also=("C09", "C16"))
+known("C07", r"^disk_layout\|(write|multi|foreign)/[^|]*\|C07:(roundtrip|foreign)(:\w+)?\|[^|]*empty=yes",
+      "an empty file is not read back from a disk image (ML: postamble read at the wrong place; BASIC: 3 header bytes returned as data)",
+      {"files": "disk: ML file with 0 data bytes"}, also=("C09", "C16"))
+known("C07", r"^disk_layout\|(write|multi)/[^|]*\|C07:roundtrip(:\w+)?\|[^|]*straddle=yes",
+      "a file whose trailer straddles a granule end is not read back", {"files": "disk: ML file of 2295 bytes"}, also=("C08",))
 known("C15", r"^disk_layout\|write/ML/len\d+/\w+\|C15:stored\|write/ML/len%2304=\d+/\w+:writer-raised:VirtualFileValidationError",
       "writing a file whose trailer straddles the last physical granule of the image fails with `Not enough bytes to write postamble`",
       {"files": "disk: ML file of 2295 bytes, reversed fill order"}, also=("C07",))
